@@ -559,5 +559,223 @@ func init() {
 		c05List(&e.out, "criticalSections", locks)
 
 		c05Profiles(e)
+		c05Rollback(e)
 	}
+}
+
+// selector path of x with the base identifier blanked (parameters: #index); calls are rendered as path()
+func c05Path(x ast.Expr, params map[string]int) string {
+	switch v := x.(type) {
+	case *ast.ParenExpr:
+		return c05Path(v.X, params)
+	case *ast.UnaryExpr:
+		return v.Op.String() + c05Path(v.X, params)
+	case *ast.SelectorExpr:
+		return c05Path(v.X, params) + "." + v.Sel.Name
+	case *ast.CallExpr:
+		return c05Path(v.Fun, params) + "()"
+	case *ast.BasicLit:
+		return v.Value
+	case *ast.Ident:
+		if v.Name == "nil" || v.Name == "true" || v.Name == "false" {
+			return v.Name
+		}
+		if i, ok := params[v.Name]; ok {
+			return fmt.Sprintf("#%d", i)
+		}
+		return "_"
+	}
+	return "?"
+}
+
+func c05CallName(st ast.Stmt) string {
+	es, ok := st.(*ast.ExprStmt)
+	if !ok {
+		return ""
+	}
+	c, ok := es.X.(*ast.CallExpr)
+	if !ok {
+		return ""
+	}
+	switch f := c.Fun.(type) {
+	case *ast.Ident:
+		return f.Name
+	case *ast.SelectorExpr:
+		return f.Sel.Name
+	}
+	return ""
+}
+
+// roll-back facts (round 4): the statement ORDER of Plugin.Unreserve in both branches, of the reserve-pod branch of
+// Plugin.Reserve, of Plugin.PreBind, the one-line cache aliases, and the key DeleteReservation cleans the indexes by
+func c05Rollback(e *ext) {
+	d := "pkg/scheduler/plugins/reservation"
+	klogCall := func(st ast.Stmt) bool {
+		n := c05CallName(st)
+		return n == "InfoS" || n == "Infof" || n == "ErrorS" || n == "Errorf" || n == "Warningf"
+	}
+	assigns := func(prefix string, list []ast.Stmt, params map[string]int, out *[]string) {
+		for _, st := range list {
+			if as, ok := st.(*ast.AssignStmt); ok && len(as.Lhs) == 1 && len(as.Rhs) == 1 {
+				*out = append(*out, prefix+c05Path(as.Lhs[0], params)+"="+c05Path(as.Rhs[0], params))
+			}
+		}
+	}
+	var stubKeys func(n ast.Node, params map[string]int, out *[]string)
+	stubKeys = func(n ast.Node, params map[string]int, out *[]string) {
+		ast.Inspect(n, func(m ast.Node) bool {
+			if kv, ok := m.(*ast.KeyValueExpr); ok {
+				if k, ok := kv.Key.(*ast.Ident); ok && (k.Name == "UID" || k.Name == "NodeName") {
+					*out = append(*out, "stub:"+k.Name+"="+c05Path(kv.Value, params))
+				}
+			}
+			return true
+		})
+	}
+
+	var normal, rsv []string
+	if fd := e.funcDecl(d, "Plugin", "Unreserve"); fd != nil && fd.Body != nil {
+		params := c05Params(fd)
+		seenBranch := false
+		for _, st := range fd.Body.List {
+			if klogCall(st) {
+				continue
+			}
+			if is, ok := st.(*ast.IfStmt); ok && !seenBranch && c05Shape(is.Cond) == "IsReservePod()" {
+				seenBranch = true
+				for _, st2 := range is.Body.List {
+					if klogCall(st2) {
+						continue
+					}
+					switch v := st2.(type) {
+					case *ast.IfStmt:
+						if eb, ok := v.Else.(*ast.BlockStmt); ok {
+							stubKeys(v.Body, params, &rsv)
+							assigns("else:", eb.List, params, &rsv)
+						} else {
+							rsv = append(rsv, c05Shape(v.Cond)+":"+c05Leaves(v))
+						}
+					case *ast.ExprStmt:
+						rsv = append(rsv, "call:"+c05CallName(v))
+					}
+				}
+				continue
+			}
+			if !seenBranch {
+				continue
+			}
+			switch v := st.(type) {
+			case *ast.IfStmt:
+				normal = append(normal, c05Shape(v.Cond)+":"+c05Leaves(v))
+			case *ast.ExprStmt:
+				normal = append(normal, "call:"+c05CallName(v))
+			case *ast.RangeStmt:
+				for _, n := range c05CalledOf(v.Body, map[string]bool{"unreservePod": true, "forgetPods": true}) {
+					normal = append(normal, "range:"+n)
+				}
+			}
+		}
+	} else {
+		e.fail("Plugin.Unreserve not found")
+	}
+	c05List(&e.out, "unreserveNormalOrder", normal)
+	c05List(&e.out, "unreserveRsvBranch", rsv)
+
+	var rres []string
+	if fd := e.funcDecl(d, "Plugin", "Reserve"); fd != nil && fd.Body != nil {
+		params := c05Params(fd)
+		for _, st := range fd.Body.List {
+			is, ok := st.(*ast.IfStmt)
+			if !ok || c05Shape(is.Cond) != "IsReservePod()" {
+				continue
+			}
+			done := false
+			for _, st2 := range is.Body.List {
+				if klogCall(st2) || done {
+					continue
+				}
+				switch v := st2.(type) {
+				case *ast.IfStmt:
+					rres = append(rres, c05Shape(v.Cond)+":"+c05Leaves(v))
+					if strings.Contains(strings.Join(rres, " "), "call:assumeReservation") {
+						done = true // the first guard after assumeReservation ends the non-pre-allocation path
+					}
+				case *ast.AssignStmt:
+					if v.Tok == token.ASSIGN {
+						assigns("", []ast.Stmt{v}, params, &rres)
+					}
+				case *ast.ExprStmt:
+					rres = append(rres, "call:"+c05CallName(v))
+				}
+			}
+			break
+		}
+	} else {
+		e.fail("Plugin.Reserve not found")
+	}
+	c05List(&e.out, "reserveRsvBranch", rres)
+
+	var pb []string
+	if fd := e.funcDecl(d, "Plugin", "PreBind"); fd != nil && fd.Body != nil {
+		params := c05Params(fd)
+		for _, st := range fd.Body.List {
+			switch v := st.(type) {
+			case *ast.IfStmt:
+				pb = append(pb, c05Shape(v.Cond)+":"+c05Leaves(v))
+			case *ast.AssignStmt:
+				if v.Tok == token.ASSIGN {
+					assigns("set:", []ast.Stmt{v}, params, &pb)
+				}
+			case *ast.ExprStmt:
+				if !klogCall(v) {
+					pb = append(pb, "call:"+c05CallName(v))
+				}
+			}
+		}
+	} else {
+		e.fail("Plugin.PreBind not found")
+	}
+	c05List(&e.out, "preBindOrder", pb)
+
+	var aliases []string
+	for _, fn := range []string{"assumeReservation", "forgetReservation", "assumePods", "forgetPods"} {
+		got := "?"
+		if fd := e.funcDecl(d, "reservationCache", fn); fd != nil && fd.Body != nil && len(fd.Body.List) == 1 {
+			params := c05Params(fd)
+			var call *ast.CallExpr
+			switch v := fd.Body.List[0].(type) {
+			case *ast.ExprStmt:
+				call, _ = v.X.(*ast.CallExpr)
+			case *ast.ReturnStmt:
+				if len(v.Results) == 1 {
+					call, _ = v.Results[0].(*ast.CallExpr)
+				}
+			}
+			if call != nil {
+				if f, ok := call.Fun.(*ast.SelectorExpr); ok {
+					args := make([]string, len(call.Args))
+					for i, a := range call.Args {
+						args[i] = c05Path(a, params)
+					}
+					got = f.Sel.Name + "(" + strings.Join(args, ",") + ")"
+				}
+			}
+		} else {
+			e.fail("reservationCache.%s not found or not a one-liner", fn)
+		}
+		aliases = append(aliases, fn+"="+got)
+	}
+	c05List(&e.out, "cacheAliases", aliases)
+
+	keyed := ""
+	if fd := e.funcDecl(d, "reservationCache", "DeleteReservation"); fd != nil && fd.Body != nil {
+		params := c05Params(fd)
+		defs := c05Defs(fd.Body)
+		if got := c05CalledArgs(fd.Body, map[string]bool{"deleteReservationOnNode": true}, defs, params); len(got) == 1 {
+			keyed = got[0]
+		}
+	} else {
+		e.fail("reservationCache.DeleteReservation not found")
+	}
+	fmt.Fprintf(&e.out, "def deleteKeyedBy : String := %s\n", leanStr(keyed))
 }
